@@ -64,6 +64,17 @@ fn gen_c03(rng: &mut Rng, thorough: bool) -> Case {
     }
     let mut c = gen::gen_flow(rng, &o);
     c.profile = "conservation".into();
+    // One case in sixteen: the mailbox of a connected recipient was dropped. Then a run must not
+    // complete successfully with the event unprocessed: either it fails (`NoRecipient`, judged by
+    // C11) or - the property read literally - every connected recipient processed the event.
+    if rng.pct(6) {
+        let targets: Vec<usize> = (0..c.nodes.len()).filter(|&i| c.nodes.iter().any(|n| n.outs.iter().flatten().any(|e| e.target == Target::Node(i as u16)))).collect();
+        if !targets.is_empty() {
+            let i = targets[rng.usize(targets.len())];
+            c.nodes[i].dead = true;
+            c.profile = "conservation-dropped-recipient".into();
+        }
+    }
     c
 }
 fn check_c03(case: &Case, out: &Outcome, h: &Hist, _g: &mut Group) -> Vec<Violation> {
@@ -74,7 +85,9 @@ fn check_c03(case: &Case, out: &Outcome, h: &Hist, _g: &mut Group) -> Vec<Violat
         return v;
     }
     v.extend(flow::conservation(case, h));
-    v.extend(flow::all_ok(h));
+    if !case.nodes.iter().any(|n| n.dead) {
+        v.extend(flow::all_ok(h));
+    }
     v
 }
 fn nt_c03(c: &Case, out: &Outcome, h: &Hist) -> bool {
